@@ -21,6 +21,7 @@ THEOREMS = [
     "Mpc.C07_intCmp_partial",
     "Mpc.C07_intCmp_equal_width",
     "Mpc.C07_intCmp_unequal_wrong",
+    "Mpc.C07_intCmp_signpad",
     "Mpc.C07_eq",
     "Mpc.C07_neq",
     "Mpc.C07_mux",
@@ -39,8 +40,16 @@ THEOREMS = [
     "Mpc.C07_mul_gmw",
     "Mpc.C07_udiv",
     "Mpc.C07_umod",
+    "Mpc.C07_idiv_partial",
     "Mpc.C07_idiv_equal_width",
+    "Mpc.C07_idiv_unequal_wrong",
+    "Mpc.C07_imod_partial",
     "Mpc.C07_imod_equal_width",
+    "Mpc.C07_imod_unequal_wrong",
+    "Mpc.C07_idiv_signpad",
+    "Mpc.C07_imod_signpad",
+    "Mpc.C07_goldschmidt_correction",
+    "Mpc.C07_goldschmidt_correction_old_wrong",
 ]
 
 # builder called per SSA opcode in compiler/ssa/circuitgen.go (T2)
@@ -78,13 +87,19 @@ def dispatch_facts(ctx):
         m = re.search(r"Target == utils\.TargetGMW \{\s*return (\w+)\(", body)
         tg[fn] = m.group(1) if m else None
     ctx.fact("GMW target dispatch inside the builders", tg, EXPECT_TARGET)
-    # the GMW divider is not modelled in Lean: pin the repaired prologue/epilogue (dcb521a, 90ed06e)
+    # Goldschmidt divider: its generator is tied gate for gate (T4), so the source text is advisory only:
+    # repaired prologue/epilogue (dcb521a, 90ed06e) and remainder sign width (776d360)
     gd = vlib.go_func_body("compiler/circuits/circ_gmw_divider.go", r"NewUDividerGoldschmidtFast\(") or ""
-    ctx.fact("NewUDividerGoldschmidtFast pads its operands first and connects q/r through muxResult (errors returned)",
-             {"zeropad_first": bool(re.search(r"\{\s*a, b = cc\.ZeroPad\(a, b\)\s*n := len\(a\)", gd)),
-              "muxResult_q": "muxResult(cc, []*Wire{isNeg}, qMinus1, qHigh, qFinal)" in gd,
-              "muxResult_r": "return muxResult(cc, []*Wire{isNeg}, rPlusB, rHigh, rFinal)" in gd},
-             {"zeropad_first": True, "muxResult_q": True, "muxResult_r": True})
+    ctx.advise("NewUDividerGoldschmidtFast pads its operands first, keeps n+1 product bits / n+2 remainder bits, reads the "
+               "sign from r[n+1] and connects q/r through muxResult (errors returned)",
+               {"zeropad_first": bool(re.search(r"\{\s*a, b = cc\.ZeroPad\(a, b\)\s*n := len\(a\)", gd)),
+                "qb_n_plus_1": "qb := qbLong[:n+1]" in gd,
+                "r_n_plus_2": "r := cc.Calloc.Wires(types.Size(n + 2))" in gd,
+                "isNeg_r_n_plus_1": "isNeg := r[n+1]" in gd,
+                "muxResult_q": "muxResult(cc, []*Wire{isNeg}, qMinus1, qHigh, qFinal)" in gd,
+                "muxResult_r": "return muxResult(cc, []*Wire{isNeg}, rPlusB, rHigh, rFinal)" in gd},
+               {"zeropad_first": True, "qb_n_plus_1": True, "r_n_plus_2": True, "isNeg_r_n_plus_1": True,
+                "muxResult_q": True, "muxResult_r": True})
     # ret wires results through ID gates
     m = re.search(r"case Ret:(.*?)case Circ:", src, flags=re.S)
     ctx.fact("`ret` passes every result wire through cc.ID to a fresh output wire",
@@ -105,6 +120,50 @@ def threshold_fact(ctx):
              hashlib.sha1(str(lean).encode()).hexdigest(), hashlib.sha1(str(go).encode()).hexdigest())
 
 
+def goldschmidt_estimate_hypothesis(ctx):
+    """Validated hypothesis `goldschmidt-estimate-within-one` of Mpc.C07_goldschmidt_correction: the quotient
+    estimate of NewUDividerGoldschmidtFast (Lean generator `goldEstimate`, tied gate for gate by T4) differs from
+    floor(a/b) by at most 1.  Exhaustive over all operand pairs up to a width bound, structured pairs above."""
+    if ctx.tier == "thorough":
+        exh, cnt = range(1, 12), 64000
+        big = list(range(12, 41)) + [47, 48, 49, 56, 63, 64]
+    else:
+        exh, cnt = range(1, 10), 6400
+        big = [10, 12, 16, 24, 31, 32, 33, 48, 64]
+    ops = ["c07 corrstep old 7 127 13 10", "c07 corrstep new 7 127 13 10"]
+    ops += ["c07 estexh %d" % n for n in exh]
+    ops += ["c07 estrnd %d %d %d" % (n, cnt if n < 48 else cnt // 4, ctx.seed) for n in big]
+    p = ctx.work + "/gold.ops"
+    open(p, "w").write("\n".join(ops) + "\n")
+    outp, rc = ctx.run_drv(p)
+    lines = [x.strip() for x in open(outp).read().split("\n") if x.strip()]
+    ctx.fact("goldschmidt_old_witness_127_13: correction step on 127/13 (width 7) with the estimate 10: "
+             "pre-776d360 definition 11 rem 112, current definition 9 rem 10 (compiled Lean generators)",
+             lines[:2], ["11 112", "9 10"])
+    pairs = viol = 0
+    lo = hi = 0
+    widths = []
+    for op, ln in zip(ops[2:], lines[2:]):
+        kv = dict(x.split("=", 1) for x in ln.split(" ") if "=" in x)
+        if "viol" not in kv:
+            continue
+        widths.append(int(kv["n"]))
+        pairs += int(kv["pairs"])
+        lo, hi = min(lo, int(kv["min"])), max(hi, int(kv["max"]))
+        if int(kv["viol"]):
+            viol += int(kv["viol"])
+            ctx.fails.append({"sig": "c07-goldschmidt-estimate-off", "algo": "goldschmidt-estimate", "width": kv["n"],
+                              "op": op, "example": kv.get("ex"), "min": kv["min"], "max": kv["max"],
+                              "detail": "quotient estimate of NewUDividerGoldschmidtFast differs from floor(a/b) by more "
+                                        "than 1: the hypothesis of Mpc.C07_goldschmidt_correction does not hold"})
+    ctx.evaluations += pairs
+    ctx.coverage["goldschmidt_estimate"] = {"hypothesis": "goldschmidt-estimate-within-one", "operand_pairs": pairs,
+                                            "exhaustive_widths": [exh[0], exh[-1]], "structured_widths": big,
+                                            "estimate_minus_floor_range": [lo, hi], "violations": viol, "driver_rc": rc}
+    ctx.oblige("validated hypothesis goldschmidt-estimate-within-one evaluated on every requested width",
+               rc == 0 and len(widths) == len(ops) - 2 and pairs > 100000, "\n".join(lines)[-2000:])
+
+
 def run(ctx):
     ctx.prove("MpcVerif.Props.C07", THEOREMS)
     if ctx.tier == "thorough":
@@ -112,6 +171,7 @@ def run(ctx):
     ctx.build_drv()
     dispatch_facts(ctx)
     threshold_fact(ctx)
+    goldschmidt_estimate_hypothesis(ctx)
     if ctx.build_hx():
         # T4/T3 correspondence: canonical cc.Gates of the real builder vs the
         # Lean generator; sample evaluations; compiled circuits through the
@@ -158,19 +218,37 @@ def run(ctx):
         "zero, remainder |a| mod |b|)",
         "Karatsuba limits below 3 are excluded (the Go recursion does not terminate; the compiler uses limits >= 8)",
     ]
+    ctx.assumptions += [
+        "VALIDATED HYPOTHESIS goldschmidt-estimate-within-one: the quotient estimate of NewUDividerGoldschmidtFast is within "
+        "+-1 of floor(a/b). Not proved (needs a fixed-point error analysis of the seed ROM and the iterations). Evaluated on "
+        "every run on the Lean generator goldEstimate (tied gate for gate with the Go code by T4 at the correspondence "
+        "widths): ALL operand pairs of widths 1..9 (quick) / 1..11 (thorough), structured operand pairs (random bit lengths, "
+        "2^k, 2^k+-1, all-ones, small divisors, m*b+{0,b-1,-1}, b in {a-1,a,a+1}) at widths up to 64. "
+        "Mpc.C07_goldschmidt_correction proves the correction step exact for every width under exactly this hypothesis; the "
+        "whole divider is additionally evaluated against math/big by the oracle",
+    ]
     return ctx.finish(
         "Theorems (Props/C07.lean, all operand/result widths, all values, both prologue variants): ripple adder and "
         "subtractor; Kogge-Stone adder and subtractor (prefix-network interval invariant; too few stages shown wrong); "
-        "unsigned comparators; signed comparators (exact for equal widths, zero-extension semantics otherwise, negation "
-        "witness); Eq/Neq; MUX; bitwise AND/OR/XOR/Clear; logical AND/OR; bit tests; NewIndex; Hamming (both targets); "
-        "array multiplier (row-accumulation invariant); Karatsuba for every threshold >= 3 and NewMultiplier on the Yao "
-        "target; Wallace multiplier (column-sum invariant) and NewMultiplier on the GMW target; long divider "
-        "(restoring-division invariant, non-zero divisor, result width <= operand width) and NewIDivider for equal "
-        "operand widths (quotient truncates toward zero, remainder |a| mod |b|); bridge lemma to the C01 plain evaluator. "
-        "Tie T4: for every modelled builder (adders, subtractors incl. Kogge-Stone, array/Karatsuba/Wallace "
-        "multipliers, long divider, signed divider (Yao), comparators, MUX, index, bitwise, Hamming) the Lean generator reproduces the real cc.Gates "
-        "gate for gate (canonical first-occurrence numbering) on all width triples listed under coverage; T3: sample "
-        "evaluations and the Lean Circuit.compute on Go-compiled circuits (Goldschmidt / restoring / array dividers: evaluator only). Oracle: real "
-        "builder -> Compile -> bit-sliced evaluation vs math/big, exhaustive at small widths, sampled to 130 bits, "
-        "cross-checked with Circuit.Compute and with the raw cc.Gates order. Known findings are matched on "
-        "(algorithm, width relation, failure class) so other failures of the same builder are still reported.")
+        "unsigned comparators; signed comparators AS IN THE CODE (cc.ZeroPad: exact for equal widths, zero-extension "
+        "semantics otherwise, negation witness -1 (2 bits) < 3 (3 bits) answered false); Eq/Neq; MUX; bitwise "
+        "AND/OR/XOR/Clear; logical AND/OR; bit tests; NewIndex; Hamming (both targets); array multiplier "
+        "(row-accumulation invariant); Karatsuba for every threshold >= 3 and NewMultiplier on the Yao target; Wallace "
+        "multiplier (column-sum invariant) and NewMultiplier on the GMW target; long divider (restoring-division "
+        "invariant, non-zero divisor, EVERY result width since the zero-fill fix cf9e510); NewIDivider on the Yao target AS "
+        "IN THE CODE (exact for equal operand widths and every result width: quotient truncates toward zero, remainder "
+        "|a| mod |b|; zero-extension semantics for unequal operand widths, negation witnesses 5 / -2 = 0 and 5 % -2 = 5 on 4- and 3-bit operands); "
+        "Goldschmidt divider: correction step exact for every width IF the estimate is within +-1 (hypothesis stated in the "
+        "theorem; validated, see assumptions), old-definition witness for the defect fixed by 776d360; bridge lemma to the "
+        "C01 plain evaluator. CONDITIONAL results about the PROPOSED REPAIR (cc.SignPad variants of the generators, "
+        "hooks/c07-intcomparator-signpad.patch, hooks/c07-idivider-signpad.patch, NOT the code; the repair was withdrawn "
+        "because constants carry no sign): C07_intCmp_signpad, C07_idiv_signpad, C07_imod_signpad hold for all operand "
+        "widths. "
+        "Tie T4: for every modelled builder (adders, subtractors incl. Kogge-Stone, array/Karatsuba/Wallace multipliers, "
+        "long divider, Goldschmidt divider, signed divider on both targets, comparators, MUX, index, bitwise, Hamming) the "
+        "Lean generator reproduces the real cc.Gates gate for gate (canonical first-occurrence numbering) on all width "
+        "triples listed under coverage; T3: sample evaluations and the Lean Circuit.compute on Go-compiled circuits "
+        "(restoring / array dividers: evaluator only). Oracle: real builder -> Compile -> bit-sliced evaluation vs "
+        "math/big, exhaustive at small widths, sampled to 130 bits, cross-checked with Circuit.Compute and with the raw "
+        "cc.Gates order. Known findings are matched on (algorithm, width relation, failure class) so other failures of the "
+        "same builder are still reported.")
